@@ -394,10 +394,11 @@ def _decode(chk, repo, folder):
 def _truncation(chk, repo, folder):
     f = repo.func(CL, "SdoClient.upload", "C01.R11")
     ff = ff_for(chk, f, "C01.R11")
-    cuts = [n for n in own_nodes(f.node) if isinstance(n, ast.Assign) and isinstance(n.value, ast.Subscript) and isinstance(n.value.slice, ast.Slice)
-            and src(n.targets[0]) == "data"]
+    cuts = [n for n in own_nodes(f.node) if ((isinstance(n, ast.Assign) and src(n.targets[0]) == "data") or isinstance(n, ast.Return)) and isinstance(n.value, ast.Subscript)
+            and isinstance(n.value.slice, ast.Slice) and src(n.value.value) == "data"]
     if not cuts:
-        chk.ok("R11", f"{CL}:SdoClient.upload | no truncation", f.loc(), "upload returns the data as received")
+        chk.bad("R11", f"{CL}:SdoClient.upload | truncation to the declared size", f.loc(), "upload returns the data as received: for entries declared as fixed-size numbers "
+                "exactly the declared number of leading bytes is to be returned")
         return
     odv = repo.cls(OD, "ODVariable", "C01.R11")
     sc = Scope(odv.mod, odv)
